@@ -107,6 +107,16 @@ def kwargs(shape: str, ops: List[int]) -> Dict[str, Any]:
     raise KeyError(shape)
 
 
+KINDS = {"NoOp": "", "Reg": "r", "RegReg": "rr", "RegImmImm": "rii", "RegRegImmImm": "rrii", "RegRegImm4": "rriiii", "RegRegReg": "rrr",
+         "RegRegRegReg": "rrrr", "Imm": "i", "ImmImm": "ii", "RegRegImm": "rri", "RegImm": "ri", "RegEntry": "rar", "RegAddr": "ra",
+         "ArrayEntry": "ar", "ArraySlice": "arr", "Addr": "a", "Reg5": "rrrrr"}
+
+
+def operand_kinds(shape: str) -> List[str]:
+    """kind of every flattened operand position: r(egister), i(mmediate), a(ddress)"""
+    return list(KINDS[shape])
+
+
 def build(cls, shape: str, ops: List[int]):
     """Real instruction object of class cls from abstract operand values."""
     return cls(**kwargs(shape, ops))
